@@ -392,7 +392,8 @@ def nf_violations(t, path="$", out=None, seen=None):
             out.append(("union_null_member", path))
         if "opt" in kinds:
             out.append(("union_optional_member", path))
-        cs = [repr(canon(m, None, 1)) for m in ms]
+        # pointers are the same member iff they point to the same model (two distinct models of equal shape are two members)
+        cs = [("ptr", model_id(m)) if kind(m) == "ptr" else repr(canon(m, None, 1)) for m in ms]
         if len(set(cs)) != len(cs):
             out.append(("union_duplicate_member", path))
         if "int" in kinds and "float" in kinds:
